@@ -28,7 +28,7 @@ def main():
     cls = {'6502': M6502, '65C02': M65C02, '65Org16': M65Org16}
     out = {}
     for k, dev in enumerate(order):
-        m = cls[dev](memory=[0] * 0x10000)
+        m = cls[dev](memory=[0] * (0x20000 if dev == '65Org16' else 0x10000))    # the 65Org16 stack is at $10000-$1FFFF
         code = program(dev, seed)
         for i, b in enumerate(code):
             m.memory[0x300 + i] = b
